@@ -12,6 +12,29 @@ pub fn run(args: &[String]) -> i32 {
     let cases = read_ndjson(&args[0]);
     let mut out = Out::create(&args[1]);
     for c in &cases {
+        if c["big"].is_array() {
+            // integers beyond 32 bits (TLC's integers are 32-bit): given as decimal strings; what is recorded besides the emitted digits is
+            // only another REPRESENTATION of the same number - sign, the low 4 bits of the magnitude and the base-32 digits of the rest
+            let mut items = vec![];
+            for t in c["big"].as_array().unwrap() {
+                let text = t.as_str().unwrap();
+                let n: i128 = text.parse().unwrap();
+                let mag: u128 = n.unsigned_abs();
+                let mut rest = mag >> 4;
+                let mut groups: Vec<u32> = vec![];
+                while rest > 0 {
+                    groups.push((rest & 31) as u32);
+                    rest >>= 5;
+                }
+                let r = guarded(|| base64_vlq_impl::base64_vlq(n as isize).chars().map(|ch| ch as u32).collect::<Vec<u32>>());
+                items.push(match r {
+                    Ok(d) => json!({"text": text, "neg": n < 0, "low4": (mag & 15) as u32, "groups": groups, "digits": d, "panicked": false}),
+                    Err(_) => json!({"text": text, "neg": n < 0, "low4": (mag & 15) as u32, "groups": groups, "digits": [], "panicked": true}),
+                });
+            }
+            out.emit(&json!({"ev": "VlqBig", "id": c["id"], "items": items}));
+            continue;
+        }
         let nums: Vec<i64> = c["nums"].as_array().unwrap().iter().map(|n| n.as_i64().unwrap()).collect();
         let r = guarded(|| nums.iter().map(|n| base64_vlq_impl::base64_vlq(*n as isize).chars().map(|ch| ch as u32).collect::<Vec<u32>>()).collect::<Vec<_>>());
         match r {
